@@ -116,13 +116,13 @@ let var_model alts steps =
   (* visit returns what the visitor returns, references included: both C++ legs only *)
   add [ "vr"; "1"; "1"; "1"; "1"; "1" ];
   (* get_if(nullptr), visit(f), visit with a non-variant operand in the middle (a one-alternative operand of the
-     dispatcher), element-wise swap of two arrays {a, b} <-> {b, b} *)
+     dispatcher), element-wise swap of two arrays {a, b} <-> {b, a} *)
   add [ "gn"; "1"; "1"; "7" ];
   (match ok_or (visit_vals [ n_of alts; S O; n_of alts ] [ a; { idx = O; val0 = zi 7 }; b ]) with
    | [ (i, v); (_, k); (j, w) ] -> add [ "vn"; sn (ty_id (alt_ty alts i)); si v; si k; sn (ty_id (alt_ty alts j)); si w ]
    | _ -> raise (Bad "visit-shape"));
   (let x0, y0 = ok_or (swap_generic alts a b) in
-   let x1, y1 = ok_or (swap_generic alts b b) in
+   let x1, y1 = ok_or (swap_generic alts b a) in
    add ("sa" :: List.concat_map (fun (x : var) -> [ sn x.idx; si x.val0 ]) [ x0; x1; y0; y1 ]));
   add ("v2" :: List.concat_map (fun (t, v) -> [ sn (ty_id t); si v ]) (ok_or (visit_types [ alts; alts ] [ a; b ])));
   add
@@ -172,7 +172,7 @@ let var_spec alts steps =
   (match sv_visit [ alts; alts ] [ a; b ] with
    | [ (t, v); (u, w) ] -> add [ "vn"; sn (ty_id t); si v; "7"; sn (ty_id u); si w ]
    | _ -> raise (Bad "visit-shape"));
-  add ("sa" :: List.concat_map (fun (i, v) -> [ sn i; si v ]) [ b; b; a; b ]);
+  add ("sa" :: List.concat_map (fun (i, v) -> [ sn i; si v ]) [ b; a; a; b ]);
   add ("v2" :: List.concat_map (fun (t, v) -> [ sn (ty_id t); si v ]) (sv_visit [ alts; alts ] [ a; b ]));
   add ("v3" :: List.concat_map (fun (t, v) -> [ sn (ty_id t); si v ]) (sv_visit [ alts; alts; alts ] [ b; a; b ]));
   add [ "life"; "ok" ];
